@@ -2539,6 +2539,10 @@ def op_deser(self: World, op: dict[str, Any]) -> str:
     if h is None or h.kind != "payload":
         raise SkipOp("no payload")
     fmt, opts, snapshot = h.meta["fmt"], h.meta["opts"], h.meta["snap"]
+    if any(x["cls"] in UNSERIALIZABLE for x in _flatten(snapshot)):
+        # Any-typed values that the formats do not carry exactly (tuples, sets, enum members): the re-created node would
+        # sit under the serialized id with OTHER content, which no registry / id oracle of the harness models
+        raise SkipOp("payload of a class that does not round-trip")
     entry = ASTNode if op.get("entry") == "ASTNode" else U.CLS[h.meta["root_cls"]]
     judge = self.on("C04")
     pre_objs: set[int] = set()
